@@ -17,7 +17,7 @@ HEADER = ('From Coq Require Import ZArith List Arith Bool.\nFrom SSJ Require Imp
 
 def gen_linear_model(rng, mi):
     nb = rng.randint(2, 5)
-    names = [f'v{k}' for k in range(12)]
+    names = [f'v{k}' for k in range(16)]
     exog = names[:3]
     avail, blocks, nxt = list(exog), [], 3
     for b in range(nb):
